@@ -456,6 +456,15 @@ def handle (req : SExp) : Option SExp := do
     let allow ← v "allow"
     pure (list [atom "ok", ofRats (List.zipWith (· + ·) (matVec J x) allow)])
   | "gram" => pure (list [atom "ok", ofRatMat (gram J)])
+  | "upgradunreg" =>
+    -- C09b: un-regularised UPGrad rows (certified) and the three `Σ_i |w₀ᵢ(cc)|²` of `upgrad_defect_bound_computed`
+    let u ← v "u"
+    let c ← v "c"
+    let c1 ← v "c1"
+    let c2 ← v "c2"
+    pure (match upgradRows (gram J) u with
+      | none => list [atom "none"]
+      | some ws => list [atom "ok", ofRats [unregSumsq ws c, unregSumsq ws c1, unregSumsq ws c2]])
   | _ => none
 
 /-- C11 validation table -/
